@@ -145,8 +145,16 @@ Definition do_start (s : N) (id : ident) (dn : list (N * N)) (x : ms) : ms + ms 
       ctick x6)                                                    (* start_persisted *)
   end.
 
+(* fetchCounters: the counter callback's value, or - when the callback fails for this session
+   (fe lists the sessions whose fetch fails during the op) - the last known values of the session
+   record found in am.sessions, or zeros when the session is not there *)
+Definition fetch_ctr (fe : list N) (s cin cout : N) (l : list sess) : N * N :=
+  if existsb (N.eqb s) fe then
+    match find_sess s l with Some se => (s_lin se, s_lout se) | None => (0, 0) end
+  else (cin, cout).
+
 (* ---- StopSession ---- *)
-Definition do_stop (s cause cin cout : N) (dn : list (N * N)) (x : ms) : ms + ms :=
+Definition do_stop (s cause cin cout : N) (fe : list N) (dn : list (N * N)) (x : ms) : ms + ms :=
   match find_sess s (x_sess x) with
   | None => inl (set_ret 1 x)                                      (* "session not found" *)
   | Some se0 =>
@@ -154,7 +162,8 @@ Definition do_stop (s cause cin cout : N) (dn : list (N * N)) (x : ms) : ms + ms
       let x1 := set_sess (put_sess se) x in
       let x2 := set_files (put_sess se) x1 in                      (* persist StopPending *)
       bind (ctick x2) (fun x3 =>                                   (* stop_persisted *)
-      let q := mkQ ST_STOP s (s_ident se) cin cout cause in
+      let fc := fetch_ctr fe s cin cout (x_sess x3) in            (* the session is still in am.sessions *)
+      let q := mkQ ST_STOP s (s_ident se) (fst fc) (snd fc) cause in
       let a := acked dn q in
       let x4 := send q a x3 in
       bind (ctick x4) (fun x5 =>                                   (* stop_sent *)
@@ -166,17 +175,18 @@ Definition do_stop (s cause cin cout : N) (dn : list (N * N)) (x : ms) : ms + ms
   end.
 
 (* ---- sendInterimUpdates (one ticker iteration; every session is due) ---- *)
-Definition interim_one (cin cout : N) (dn : list (N * N)) (se : sess) (x : ms) : ms + ms :=
-  let q := mkQ ST_INTERIM (s_id se) (s_ident se) cin cout 0 in
+Definition interim_one (cin cout : N) (fe : list N) (dn : list (N * N)) (se : sess) (x : ms) : ms + ms :=
+  let fc := fetch_ctr fe (s_id se) cin cout (x_sess x) in
+  let q := mkQ ST_INTERIM (s_id se) (s_ident se) (fst fc) (snd fc) 0 in
   let a := acked dn q in
   let x1 := send q a x in
   let x2 := if a then set_sess (map (fun h => if s_id h =? s_id se
-                                              then mkS (s_id h) (s_ident h) (s_pend h) (s_cause h) cin cout else h)) x1
+                                              then mkS (s_id h) (s_ident h) (s_pend h) (s_cause h) (fst fc) (snd fc) else h)) x1
             else x1 in
   ctick x2.                                                        (* interim_sent *)
 
-Definition do_interim (cin cout : N) (dn : list (N * N)) (order : list N) (x : ms) : ms + ms :=
-  fold_m (interim_one cin cout dn) (pick s_id order (filter (fun h => negb (s_pend h)) (x_sess x))) x.
+Definition do_interim (cin cout : N) (fe : list N) (dn : list (N * N)) (order : list N) (x : ms) : ms + ms :=
+  fold_m (interim_one cin cout fe dn) (pick s_id order (filter (fun h => negb (s_pend h)) (x_sess x))) x.
 
 (* ---- processPendingRecord ---- *)
 Definition process_rec (maxr st : N) (q : req) (dn : list (N * N)) (x : ms) : ms + ms :=
@@ -206,11 +216,12 @@ Definition do_retry (maxr : N) (dn : list (N * N)) (order : list N) (x : ms) : m
   fold_m (retry_one maxr dn) (pick_pos order (x_pend x)) x.
 
 (* ---- Stop(): drain, persist pending ---- *)
-Definition drain_req (cin cout : N) (se : sess) : req :=
-  mkQ ST_STOP (s_id se) (s_ident se) cin cout CAUSE_NAS_REBOOT.
+Definition drain_req (cin cout : N) (fe : list N) (l : list sess) (se : sess) : req :=
+  let fc := fetch_ctr fe (s_id se) cin cout l in
+  mkQ ST_STOP (s_id se) (s_ident se) (fst fc) (snd fc) CAUSE_NAS_REBOOT.
 
-Definition do_graceful (cin cout : N) (dn : list (N * N)) (qorder : list N) (g : N) (x : ms) : ms + ms :=
-  let qs := map (drain_req cin cout) (x_sess x) in
+Definition do_graceful (cin cout : N) (fe : list N) (dn : list (N * N)) (qorder : list N) (g : N) (x : ms) : ms + ms :=
+  let qs := map (drain_req cin cout fe (x_sess x)) (x_sess x) in
   if (g =? 1) && negb (match qs with [] => true | _ => false end) then
     (* crash inside the concurrent drain: every request is on the wire, the process dies at the
        first completed exchange (the first acknowledged one if there is any) *)
@@ -257,11 +268,11 @@ Definition do_restart (dn : list (N * N)) (qperm : list N) (x : ms) : ms + ms :=
 (* ---- whole-op step ---- *)
 Inductive op :=
 | Start (s : N) (id : ident) (dn : list (N * N)) (c : N)
-| Stop (s cause cin cout : N) (dn : list (N * N)) (c : N)
-| InterimTick (cin cout : N) (dn : list (N * N)) (order : list N) (c : N)
+| Stop (s cause cin cout : N) (fe : list N) (dn : list (N * N)) (c : N)
+| InterimTick (cin cout : N) (fe : list N) (dn : list (N * N)) (order : list N) (c : N)
 | ProcessQueued (dn : list (N * N)) (c : N)
 | RetryTick (dn : list (N * N)) (order : list N) (c : N)
-| GracefulStop (cin cout : N) (dn : list (N * N)) (qorder : list N) (g : N)
+| GracefulStop (cin cout : N) (fe : list N) (dn : list (N * N)) (qorder : list N) (g : N)
 | Crash
 | Restart (dn : list (N * N)) (qperm : list N) (c : N)
 | Final.
@@ -309,11 +320,11 @@ Definition dead (s : state) : state * out * list N := (s, view R_DEAD [] s, []).
 Definition step (s : state) (o : op) : state * out * list N :=
   match o with
   | Start id idn dn c => if st_alive s then leave s false (do_start id idn dn (enter s c)) else dead s
-  | Stop id cause cin cout dn c => if st_alive s then leave s false (do_stop id cause cin cout dn (enter s c)) else dead s
-  | InterimTick cin cout dn order c => if st_alive s then leave s false (do_interim cin cout dn order (enter s c)) else dead s
+  | Stop id cause cin cout fe dn c => if st_alive s then leave s false (do_stop id cause cin cout fe dn (enter s c)) else dead s
+  | InterimTick cin cout fe dn order c => if st_alive s then leave s false (do_interim cin cout fe dn order (enter s c)) else dead s
   | ProcessQueued dn c => if st_alive s then leave s false (do_queue (st_maxr s) dn (enter s c)) else dead s
   | RetryTick dn order c => if st_alive s then leave s false (do_retry (st_maxr s) dn order (enter s c)) else dead s
-  | GracefulStop cin cout dn qorder g => if st_alive s then leave s true (do_graceful cin cout dn qorder g (enter s 0)) else dead s
+  | GracefulStop cin cout fe dn qorder g => if st_alive s then leave s true (do_graceful cin cout fe dn qorder g (enter s 0)) else dead s
   | Crash => if st_alive s then leave s false (inr (enter s 0)) else dead s
   | Restart dn qperm c =>
       if st_alive s then (s, view R_ERR [] s, [])
